@@ -89,6 +89,8 @@ func (w *c02World) resetKnowledgeFromRecord() {
 	w.mu.Lock()
 	defer w.mu.Unlock()
 	w.k = map[string]*c08KENI{}
+	w.refused = map[string]int{}    // a restarted controller has lost its resync flag
+	w.vswRefused = map[string]int{} // ... and starts with an empty vSwitch cache
 	for id, e := range w.readNode().Status.NetworkInterfaces {
 		k := &c08KENI{v4: map[string]bool{}, v6: map[string]bool{}, counted: true, typ: string(e.NetworkInterfaceType), mode: string(e.NetworkInterfaceTrafficMode)}
 		for a := range e.IPv4 {
@@ -146,6 +148,18 @@ func (w *c02World) onCall(cl *cloudctl.Cloud, c *cloudctl.Call) {
 		if cnt == batch && batch > 1 {
 			w.atQuota = true
 		}
+		if e := cl.ENIs[c.ENI]; e != nil {
+			if seq, ok := w.vswRefused[e.VSwitchID]; ok && seq < w.passFirstSeq {
+				kind = "refused"
+				bad("addresses requested for %s on vSwitch %s again although the cloud refused call #%d on that vSwitch for lack of addresses (the controller's cache entry has not expired)", c.ENI, e.VSwitchID, seq)
+				kind = "count"
+			}
+		}
+		if seq, ok := w.refused[c.ENI]; ok {
+			kind = "refused"
+			bad("addresses requested for %s again although the cloud refused call #%d on it with a count-exceeded code and no full sync has answered since", c.ENI, seq)
+			kind = "count"
+		}
 		k := w.k[c.ENI]
 		if k == nil {
 			bad("addresses requested for interface %s the controller was never told about", c.ENI)
@@ -163,6 +177,11 @@ func (w *c02World) onCall(cl *cloudctl.Cloud, c *cloudctl.Call) {
 			w.atQuota = true
 		}
 	case cloudctl.KCreate:
+		if seq, ok := w.vswRefused[c.VSwitch]; ok && seq < w.passFirstSeq {
+			kind = "refused"
+			bad("new interface requested on vSwitch %s again although the cloud refused call #%d on that vSwitch for lack of addresses (the controller's cache entry has not expired)", c.VSwitch, seq)
+			kind = "count"
+		}
 		if c.N4 > max(n.V4Per, 1) {
 			bad("interface requested with %d IPv4 addresses, declared per-interface limit is %d", c.N4, n.V4Per)
 		}
@@ -207,6 +226,18 @@ func (w *c02World) afterCall(cl *cloudctl.Cloud, c *cloudctl.Call) {
 	w.mu.Lock()
 	defer w.mu.Unlock()
 	ok := c.Err == ""
+	if c.ErrCode == "InvalidVSwitchId.IpNotEnough" || c.ErrCode == "QuotaExceeded.PrivateIpAddress" {
+		switch c.Kind {
+		case cloudctl.KCreate:
+			if c.VSwitch != "" {
+				w.vswRefused[c.VSwitch] = c.Seq
+			}
+		case cloudctl.KAssign4, cloudctl.KAssign6:
+			if e := cl.ENIs[c.ENI]; e != nil {
+				w.vswRefused[e.VSwitchID] = c.Seq
+			}
+		}
+	}
 	merge := func(e *cloudctl.ENI, counted bool) {
 		old := w.k[e.ID]
 		k := c08FromENI(e)
@@ -230,6 +261,7 @@ func (w *c02World) afterCall(cl *cloudctl.Cloud, c *cloudctl.Call) {
 			merge(e, c.Instance != "" && e.InstanceID == c.Instance)
 		}
 		if len(c.IDs) == 0 && c.Instance != "" {
+			w.refused = map[string]int{}
 			for id, k := range w.k {
 				if !told[id] {
 					k.counted = false
@@ -274,6 +306,10 @@ func (w *c02World) afterCall(cl *cloudctl.Cloud, c *cloudctl.Call) {
 			w.deleteFailed[c.ENI] = true
 		}
 	case cloudctl.KAssign4, cloudctl.KAssign6:
+		switch c.ErrCode {
+		case "InvalidOperation.Ipv4CountExceeded", "InvalidOperation.Ipv6CountExceeded", "1013":
+			w.refused[c.ENI] = c.Seq
+		}
 		k := w.k[c.ENI]
 		if k == nil {
 			return
@@ -342,6 +378,9 @@ func (w *c02World) step(tag string) c02StepResult {
 	prev := w.readNode()
 	pods := w.podViews()
 	from := w.cloud.NCalls()
+	w.mu.Lock()
+	w.passFirstSeq = from + 1 // calls of one pass may run in parallel: only a refusal of an earlier pass counts
+	w.mu.Unlock()
 	w.writes, w.writeErrs = 0, 0
 	if nt, why := c02NonTrivialStart(prev.Status.NetworkInterfaces, pods, w.s.Node.V4, w.s.Node.V6); nt {
 		w.nt = true
@@ -1020,10 +1059,15 @@ func (w *c02World) settle() (bool, int) {
 	w.cloud.Lock()
 	w.cloud.AttachPolls = min(w.cloud.AttachPolls, 3)
 	w.cloud.Unlock()
-	for _, id := range w.spec.ENISpec.VSwitchOptions {
-		w.rec.vswpool.Del(id) // "ten minutes later"
+	if !w.s.Node.KeepCache {
+		for _, id := range w.spec.ENISpec.VSwitchOptions {
+			w.rec.vswpool.Del(id) // "ten minutes later"
+		}
+		w.rec.vswpool.Del("vsw-pre")
+		w.mu.Lock()
+		w.vswRefused = map[string]int{}
+		w.mu.Unlock()
 	}
-	w.rec.vswpool.Del("vsw-pre")
 	w.forceFullSync()
 	w.inSettle = true
 	quiet := 0
@@ -1234,7 +1278,7 @@ func (w *c02World) c08Room(f *c08Final, rdma, growOnly bool) (bool, string) {
 			continue
 		}
 		// growing an interface takes addresses from ITS vSwitch: an exhausted one gives none
-		grow := w.c08VSwitchFree(e.VSwitchID) >= 20
+		grow := w.c08VSwitchUsable(e.VSwitchID, 20)
 		ok4 := !n.V4 || (grow && len(e.V4) < n.V4Per) || (!growOnly && IdlesWithAvailable(r.IPv4) > 0)
 		ok6 := !n.V6 || (grow && len(e.V6) < n.V6Per) || (!growOnly && IdlesWithAvailable(r.IPv6) > 0)
 		if growOnly { // the idle count is taken on IPv4 when IPv4 is enabled
@@ -1247,23 +1291,30 @@ func (w *c02World) c08Room(f *c08Final, rdma, growOnly bool) (bool, string) {
 	return false, ""
 }
 
-func (w *c02World) c08VSwitchFree(id string) int64 {
+// c08VSwitchUsable: the vSwitch really has at least need free addresses and the
+// controller's own cache does not hold it as exhausted / blocked (an entry lives 10 minutes).
+func (w *c02World) c08VSwitchUsable(id string, need int64) bool {
 	w.cloud.Lock()
-	defer w.cloud.Unlock()
-	if v := w.cloud.VSwitches[id]; v != nil {
-		return v.Free
+	v := w.cloud.VSwitches[id]
+	ok := v != nil && v.Free >= need
+	w.cloud.Unlock()
+	if !ok {
+		return false
 	}
-	return 0
+	c, err := w.rec.vswpool.GetByID(w.ctx, w.cloud, id)
+	return err == nil && c.AvailableIPCount > 0
 }
 
 // c08Ample: spare vSwitch capacity - at least one vSwitch option of the node's zone has
-// plenty of free addresses (>= 200). Other options may be exhausted or nearly so: the
-// controller is expected to block a vSwitch the cloud refused and move on to the next.
+// plenty of free addresses (>= 200) and is not held as exhausted in the controller's cache.
+// Other options may be exhausted or nearly so: the controller is expected to block a
+// vSwitch the cloud refused and move on to the next.
 func (w *c02World) c08Ample() bool {
-	w.cloud.Lock()
-	defer w.cloud.Unlock()
 	for _, id := range w.spec.ENISpec.VSwitchOptions {
-		if v := w.cloud.VSwitches[id]; v.Zone == c02Zone && v.Free >= 200 {
+		w.cloud.Lock()
+		inZone := w.cloud.VSwitches[id].Zone == c02Zone
+		w.cloud.Unlock()
+		if inZone && w.c08VSwitchUsable(id, 200) {
 			return true
 		}
 	}
